@@ -10,6 +10,11 @@ package main
 //
 //   call:   ltm.has ltm.next ltm.sizes ltm.acq lsq.acq lsq.query lts.submit      (node-to-client)
 //           ps.get bf.get bf.range cs.sync cs.tip                                (node-to-node)
+//           txs.ids txs.txs   tx-submission *server* calls RequestTxIds(blocking) / RequestTxs on a
+//                             connection opened in server mode (the peer proposes the versions and
+//                             sends Init; the script is the adversarial client's answer)
+//           bf.getstop cs.syncstop   GetBlock / Sync answered correctly, then the script, then the
+//                             protocol client's own Stop() is the blocking call under test
 //   script: ok       the correct reply
 //           silent   nothing (then disconnect)
 //           close    disconnect at once
@@ -18,6 +23,10 @@ package main
 //           garbage  bytes that are not CBOR
 //           trunc    a segment header announcing 100 bytes followed by 10, then disconnect
 //           unknown  a message of type 99
+//           mid      the correct reply without its last message, then disconnect (block-fetch:
+//                    disconnect exactly between Block and BatchDone)
+//           flood    the correct reply followed by 400 surplus copies (fills the protocol's receive
+//                    queue and the muxer's channel), then disconnect
 //
 // Output: ret=<ok|err|HANG> close=<ok|HANG> errchan=<closed|open> leak=<n>
 //   ret:     what the blocking call did once the peer was gone (HANG = still blocked 2 s later)
@@ -33,21 +42,24 @@ import (
 
 	ouroboros "github.com/blinklabs-io/gouroboros"
 	"github.com/blinklabs-io/gouroboros/cbor"
+	"github.com/blinklabs-io/gouroboros/protocol"
 	"github.com/blinklabs-io/gouroboros/protocol/blockfetch"
 	"github.com/blinklabs-io/gouroboros/protocol/chainsync"
 	pcommon "github.com/blinklabs-io/gouroboros/protocol/common"
+	"github.com/blinklabs-io/gouroboros/protocol/handshake"
 	"github.com/blinklabs-io/gouroboros/protocol/localstatequery"
 	"github.com/blinklabs-io/gouroboros/protocol/localtxmonitor"
 	"github.com/blinklabs-io/gouroboros/protocol/localtxsubmission"
 	"github.com/blinklabs-io/gouroboros/protocol/peersharing"
+	"github.com/blinklabs-io/gouroboros/protocol/txsubmission"
 )
 
 var c15Calls = []string{"ltm.has", "ltm.next", "ltm.sizes", "ltm.acq", "lsq.acq", "lsq.query", "lts.submit",
-	"ps.get", "bf.get", "bf.range", "cs.sync", "cs.tip"}
-var c15Scripts = []string{"ok", "silent", "close", "wrong", "extra", "garbage", "trunc", "unknown"}
+	"ps.get", "bf.get", "bf.range", "cs.sync", "cs.tip", "txs.ids", "txs.txs", "bf.getstop", "cs.syncstop"}
+var c15Scripts = []string{"ok", "silent", "close", "wrong", "extra", "garbage", "trunc", "unknown", "mid", "flood"}
 
 func init() {
-	register(&Prop{ID: "C15", Gen: genC15, Run: runC15, Timeout: 30 * time.Second})
+	register(&Prop{ID: "C15", Gen: genC15, Run: runC15, Timeout: 120 * time.Second})
 }
 
 func genC15(r *Rand, n int, tier string, emit func(string)) {
@@ -63,6 +75,7 @@ func genC15(r *Rand, n int, tier string, emit func(string)) {
 }
 
 type c15Spec struct {
+	server  bool // the library side is the responder (tx-submission server calls)
 	ntn     bool
 	proto   uint16
 	reqType uint64   // message type of the request under test
@@ -78,48 +91,62 @@ func c15SpecFor(call string, blocks []g5Block) (c15Spec, bool) {
 	tip := chainsync.Tip{Point: pcommon.NewPoint(5, []byte{1, 2}), BlockNumber: 3}
 	switch call {
 	case "ltm.has":
-		return c15Spec{false, localtxmonitor.ProtocolId, localtxmonitor.MessageTypeHasTx,
+		return c15Spec{false, false, localtxmonitor.ProtocolId, localtxmonitor.MessageTypeHasTx,
 			[][]byte{g5enc(localtxmonitor.NewMsgReplyHasTx(true))},
 			g5enc(localtxmonitor.NewMsgReplyNextTx(6, []byte{0x80})),
 			map[uint64][]byte{localtxmonitor.MessageTypeAcquire: acquiredLtm}}, true
 	case "ltm.next":
-		return c15Spec{false, localtxmonitor.ProtocolId, localtxmonitor.MessageTypeNextTx,
+		return c15Spec{false, false, localtxmonitor.ProtocolId, localtxmonitor.MessageTypeNextTx,
 			[][]byte{g5enc(localtxmonitor.NewMsgReplyNextTx(6, []byte{0x80}))},
 			g5enc(localtxmonitor.NewMsgReplyGetSizes(1, 2, 3)),
 			map[uint64][]byte{localtxmonitor.MessageTypeAcquire: acquiredLtm}}, true
 	case "ltm.sizes":
-		return c15Spec{false, localtxmonitor.ProtocolId, localtxmonitor.MessageTypeGetSizes,
+		return c15Spec{false, false, localtxmonitor.ProtocolId, localtxmonitor.MessageTypeGetSizes,
 			[][]byte{g5enc(localtxmonitor.NewMsgReplyGetSizes(1, 2, 3))},
 			g5enc(localtxmonitor.NewMsgReplyHasTx(true)),
 			map[uint64][]byte{localtxmonitor.MessageTypeAcquire: acquiredLtm}}, true
 	case "ltm.acq":
-		return c15Spec{false, localtxmonitor.ProtocolId, localtxmonitor.MessageTypeAcquire,
+		return c15Spec{false, false, localtxmonitor.ProtocolId, localtxmonitor.MessageTypeAcquire,
 			[][]byte{acquiredLtm}, g5enc(localtxmonitor.NewMsgReplyHasTx(true)), nil}, true
 	case "lsq.acq":
-		return c15Spec{false, localstatequery.ProtocolId, localstatequery.MessageTypeAcquire,
+		return c15Spec{false, false, localstatequery.ProtocolId, localstatequery.MessageTypeAcquire,
 			[][]byte{acquiredLsq}, g5enc(localstatequery.NewMsgResult(g5enc(uint64(1)))), nil}, true
 	case "lsq.query":
-		return c15Spec{false, localstatequery.ProtocolId, localstatequery.MessageTypeQuery,
+		return c15Spec{false, false, localstatequery.ProtocolId, localstatequery.MessageTypeQuery,
 			[][]byte{g5enc(localstatequery.NewMsgResult(g5enc(uint64(6))))}, acquiredLsq,
 			map[uint64][]byte{localstatequery.MessageTypeAcquireVolatileTip: acquiredLsq}}, true
 	case "lts.submit":
-		return c15Spec{false, localtxsubmission.ProtocolId, localtxsubmission.MessageTypeSubmitTx,
+		return c15Spec{false, false, localtxsubmission.ProtocolId, localtxsubmission.MessageTypeSubmitTx,
 			[][]byte{g5enc(localtxsubmission.NewMsgAcceptTx())}, g5enc(localtxsubmission.NewMsgDone()), nil}, true
 	case "ps.get":
-		return c15Spec{true, peersharing.ProtocolId, peersharing.MessageTypeShareRequest,
+		return c15Spec{false, true, peersharing.ProtocolId, peersharing.MessageTypeShareRequest,
 			[][]byte{g5enc(peersharing.NewMsgSharePeers([]peersharing.PeerAddress{{IP: net.IPv4(10, 0, 0, 1), Port: 3001}}))},
 			g5enc(peersharing.NewMsgDone()), nil}, true
 	case "bf.get", "bf.range":
 		wb := blockfetch.WrappedBlock{Type: blocks[3].Type, RawBlock: blocks[3].Cbor}
-		return c15Spec{true, blockfetch.ProtocolId, blockfetch.MessageTypeRequestRange,
+		return c15Spec{false, true, blockfetch.ProtocolId, blockfetch.MessageTypeRequestRange,
 			[][]byte{g5enc(blockfetch.NewMsgStartBatch()), g5enc(blockfetch.NewMsgBlock(g5enc(&wb))), g5enc(blockfetch.NewMsgBatchDone())},
 			g5enc(blockfetch.NewMsgBatchDone()), nil}, true
 	case "cs.sync":
-		return c15Spec{true, chainsync.ProtocolIdNtN, chainsync.MessageTypeFindIntersect,
+		return c15Spec{false, true, chainsync.ProtocolIdNtN, chainsync.MessageTypeFindIntersect,
 			[][]byte{g5enc(chainsync.NewMsgIntersectFound(pcommon.NewPointOrigin(), tip))},
 			g5enc(chainsync.NewMsgRollBackward(pcommon.NewPointOrigin(), tip)), nil}, true
+	case "bf.getstop":
+		sp, _ := c15SpecFor("bf.get", blocks)
+		return sp, true
+	case "cs.syncstop":
+		sp, _ := c15SpecFor("cs.sync", blocks)
+		return sp, true
+	case "txs.ids":
+		return c15Spec{true, true, txsubmission.ProtocolId, txsubmission.MessageTypeRequestTxIds,
+			[][]byte{g5enc(txsubmission.NewMsgReplyTxIds(c24Ids(1)))},
+			g5enc(txsubmission.NewMsgReplyTxs(nil)), nil}, true
+	case "txs.txs":
+		return c15Spec{true, true, txsubmission.ProtocolId, txsubmission.MessageTypeRequestTxs,
+			[][]byte{g5enc(txsubmission.NewMsgReplyTxs([]txsubmission.TxBody{{EraId: 6, TxBody: []byte{0x80}}}))},
+			g5enc(txsubmission.NewMsgReplyTxIds(c24Ids(1))), nil}, true
 	case "cs.tip":
-		return c15Spec{true, chainsync.ProtocolIdNtN, chainsync.MessageTypeFindIntersect,
+		return c15Spec{false, true, chainsync.ProtocolIdNtN, chainsync.MessageTypeFindIntersect,
 			[][]byte{g5enc(chainsync.NewMsgIntersectNotFound(tip))},
 			g5enc(chainsync.NewMsgAwaitReply()), nil}, true
 	}
@@ -148,40 +175,77 @@ func runC15(op string) string {
 	a, b := net.Pipe()
 	peer := newG5Peer(b)
 	defer peer.close()
-	// handshake responder: accept the highest proposed version with the proposer's own data
-	go func() {
-		msg, err := peer.recv(0, 5*time.Second)
-		if err != nil {
-			return
-		}
-		var prop struct {
-			cbor.StructAsArray
-			Type     uint64
-			Versions map[uint64]cbor.RawMessage
-		}
-		if _, err := cbor.Decode(msg, &prop); err != nil {
-			return
-		}
-		var best uint64
-		for v := range prop.Versions {
-			if v > best {
-				best = v
+	// ids of the segments: the peer's messages carry the response flag unless the peer is the initiator
+	fromLib, fromPeer := spec.proto, spec.proto|0x8000
+	if spec.server {
+		fromLib, fromPeer = spec.proto|0x8000, spec.proto
+	}
+	initCh := make(chan struct{}, 1)
+	var opts []ouroboros.ConnectionOptionFunc
+	if spec.server {
+		// the peer is the initiator: it proposes the versions …
+		vm := protocol.GetProtocolVersionMap(protocol.ProtocolModeNodeToNode, 764824073, false, false, false)
+		go func() {
+			_ = peer.send(0, g5enc(handshake.NewMsgProposeVersions(vm)))
+			_, _ = peer.recv(0x8000, 20*time.Second)
+			// … and opens tx-submission
+			_ = peer.send(txsubmission.ProtocolId, g5enc([]any{uint64(txsubmission.MessageTypeInit)}))
+		}()
+		txCfg := txsubmission.NewConfig(txsubmission.WithInitFunc(func(txsubmission.CallbackContext) error {
+			select {
+			case initCh <- struct{}{}:
+			default:
 			}
-		}
-		_ = peer.send(0x8000, g5enc([]any{uint64(1), best, prop.Versions[best]}))
-	}()
-	conn, err := ouroboros.NewConnection(
+			return nil
+		}))
+		opts = []ouroboros.ConnectionOptionFunc{ouroboros.WithServer(true), ouroboros.WithTxSubmissionConfig(txCfg)}
+	} else {
+		// handshake responder: accept the highest proposed version with the proposer's own data
+		go func() {
+			msg, err := peer.recv(0, 20*time.Second)
+			if err != nil {
+				return
+			}
+			var prop struct {
+				cbor.StructAsArray
+				Type     uint64
+				Versions map[uint64]cbor.RawMessage
+			}
+			if _, err := cbor.Decode(msg, &prop); err != nil {
+				return
+			}
+			var best uint64
+			for v := range prop.Versions {
+				if v > best {
+					best = v
+				}
+			}
+			_ = peer.send(0x8000, g5enc([]any{uint64(1), best, prop.Versions[best]}))
+		}()
+	}
+	opts = append(opts,
 		ouroboros.WithConnection(a),
 		ouroboros.WithNetworkMagic(764824073),
 		ouroboros.WithNodeToNode(spec.ntn),
 		ouroboros.WithKeepAlive(false),
 		ouroboros.WithPeerSharing(true),
 	)
+	conn, err := ouroboros.NewConnection(opts...)
 	if err != nil {
 		return "connect:" + strings.ReplaceAll(err.Error(), " ", "_")
 	}
+	if spec.server {
+		select {
+		case <-initCh:
+		case <-time.After(20 * time.Second):
+			return "no-init"
+		}
+	}
+	point3 := pcommon.NewPoint(blocks[3].Slot, blocks[3].Hash)
+	stopCall := call == "bf.getstop" || call == "cs.syncstop"
+	firstCh := make(chan error, 1) // result of the preparatory call of the *stop calls
 	resCh := make(chan error, 1)
-	go func() {
+	doCall := func() error {
 		var err error
 		switch call {
 		case "ltm.has":
@@ -200,23 +264,34 @@ func runC15(op string) string {
 			err = conn.LocalTxSubmission().Client.SubmitTx(6, []byte{0x80})
 		case "ps.get":
 			_, err = conn.PeerSharing().Client.GetPeers(3)
-		case "bf.get":
-			_, err = conn.BlockFetch().Client.GetBlock(pcommon.NewPoint(blocks[3].Slot, blocks[3].Hash))
+		case "bf.get", "bf.getstop":
+			_, err = conn.BlockFetch().Client.GetBlock(point3)
 		case "bf.range":
-			err = conn.BlockFetch().Client.GetBlockRange(pcommon.NewPoint(blocks[3].Slot, blocks[3].Hash), pcommon.NewPoint(blocks[3].Slot, blocks[3].Hash))
-		case "cs.sync":
+			err = conn.BlockFetch().Client.GetBlockRange(point3, point3)
+		case "cs.sync", "cs.syncstop":
 			err = conn.ChainSync().Client.Sync([]pcommon.Point{pcommon.NewPointOrigin()})
 		case "cs.tip":
 			_, err = conn.ChainSync().Client.GetCurrentTip()
+		case "txs.ids":
+			_, err = conn.TxSubmission().Server.RequestTxIds(true, 3)
+		case "txs.txs":
+			ids := []txsubmission.TxId{{EraId: 6}}
+			_, err = conn.TxSubmission().Server.RequestTxs(ids)
 		}
-		resCh <- err
+		return err
+	}
+	go func() {
+		if stopCall {
+			firstCh <- doCall()
+		} else {
+			resCh <- doCall()
+		}
 	}()
-	respId := spec.proto | 0x8000
 	// serve the requests that precede the one under test, then apply the script
-	deadline := time.Now().Add(5 * time.Second)
+	deadline := time.Now().Add(30 * time.Second)
 	gotReq := false
 	for !gotReq && time.Now().Before(deadline) {
-		msg, err := peer.recv(spec.proto, 100*time.Millisecond)
+		msg, err := peer.recv(fromLib, 200*time.Millisecond)
 		if err != nil {
 			if err == errG5Timeout {
 				continue
@@ -231,41 +306,98 @@ func runC15(op string) string {
 		if mt == spec.reqType {
 			gotReq = true
 		} else if rep, ok := spec.pre[mt]; ok {
-			_ = peer.send(respId, rep)
+			_ = peer.send(fromPeer, rep)
 		}
 	}
 	if !gotReq {
 		return "norequest"
 	}
-	switch script {
-	case "ok":
-		for _, m := range spec.ok {
-			_ = peer.send(respId, m)
-		}
-	case "extra":
-		for k := 0; k < 2; k++ {
-			for _, m := range spec.ok {
-				_ = peer.send(respId, m)
+	sendAll := func(ms [][]byte) {
+		for _, m := range ms {
+			if peer.send(fromPeer, m) != nil {
+				return
 			}
 		}
-	case "wrong":
-		_ = peer.send(respId, spec.wrong)
-	case "garbage":
-		_ = peer.send(respId, []byte{0xff, 0xff, 0xff})
-	case "unknown":
-		_ = peer.send(respId, g5enc([]any{uint64(99)}))
-	case "trunc":
-		hdr := []byte{0, 0, 0, 0, byte(respId >> 8), byte(respId), 0, 100}
-		_ = peer.sendRaw(append(hdr, make([]byte, 10)...))
-	case "silent", "close":
+	}
+	if stopCall {
+		// the preparatory call is answered correctly and must have returned before the script starts
+		sendAll(spec.ok)
+		select {
+		case e := <-firstCh:
+			if e != nil {
+				return "prep-failed:" + strings.ReplaceAll(e.Error(), " ", "_")
+			}
+		case <-time.After(30 * time.Second):
+			return "prep-hang"
+		}
+	}
+	// the peer's writes must not block the harness when the library stops reading (flood)
+	scriptDone := make(chan struct{})
+	go func() {
+		defer close(scriptDone)
+		switch script {
+		case "ok":
+			if !stopCall {
+				sendAll(spec.ok)
+			}
+		case "extra":
+			if !stopCall {
+				sendAll(spec.ok)
+			}
+			sendAll(spec.ok)
+		case "flood":
+			if !stopCall {
+				sendAll(spec.ok)
+			}
+			last := spec.ok[len(spec.ok)-1]
+			if len(spec.ok) > 1 {
+				last = spec.ok[1] // block-fetch: surplus Block messages
+			}
+			for k := 0; k < 400; k++ {
+				if peer.send(fromPeer, last) != nil {
+					return
+				}
+			}
+		case "mid":
+			if !stopCall {
+				sendAll(spec.ok[:len(spec.ok)-1])
+			}
+		case "wrong":
+			sendAll([][]byte{spec.wrong})
+		case "garbage":
+			sendAll([][]byte{{0xff, 0xff, 0xff}})
+		case "unknown":
+			sendAll([][]byte{g5enc([]any{uint64(99)})})
+		case "trunc":
+			hdr := []byte{0, 0, 0, 0, byte(fromPeer >> 8), byte(fromPeer), 0, 100}
+			_ = peer.sendRaw(append(hdr, make([]byte, 10)...))
+		case "silent", "close":
+		}
+	}()
+	if stopCall {
+		// give the script a moment to arrive (flood: until the peer's writes stall), then Stop
+		select {
+		case <-scriptDone:
+		case <-time.After(300 * time.Millisecond):
+		}
+		go func() {
+			if call == "bf.getstop" {
+				resCh <- conn.BlockFetch().Client.Stop()
+			} else {
+				resCh <- conn.ChainSync().Client.Stop()
+			}
+		}()
 	}
 	var ret *error
 	if script != "close" {
 		// after a correct reply the call is expected to return by itself: give it time
 		// (bounded) before the peer disconnects; otherwise a short silence is enough
 		quiet := 60 * time.Millisecond
-		if script == "ok" || script == "extra" {
-			quiet = 3 * time.Second
+		if script == "ok" || script == "extra" || script == "flood" {
+			quiet = 20 * time.Second
+		}
+		if stopCall {
+			quiet = 1500 * time.Millisecond
 		}
 		select {
 		case e := <-resCh:
@@ -278,7 +410,7 @@ func runC15(op string) string {
 		select {
 		case e := <-resCh:
 			ret = &e
-		case <-time.After(2 * time.Second):
+		case <-time.After(10 * time.Second):
 		}
 	}
 	retStr := "HANG"
@@ -294,10 +426,10 @@ func runC15(op string) string {
 	select {
 	case <-closed:
 		closeStr = "ok"
-	case <-time.After(3 * time.Second):
+	case <-time.After(20 * time.Second):
 	}
 	ecStr := "open"
-	ecDeadline := time.After(2 * time.Second)
+	ecDeadline := time.After(20 * time.Second)
 drainErr:
 	for {
 		select {
@@ -310,7 +442,7 @@ drainErr:
 			break drainErr
 		}
 	}
-	n, _ := g5WaitLibGoroutines(base, 1500*time.Millisecond)
+	n, _ := g5WaitLibGoroutines(base, 20*time.Second)
 	leak := n - base
 	if leak < 0 {
 		leak = 0
